@@ -680,7 +680,7 @@ func (o *oracle) compareObs(opt *readOpts, s *obsSeen) {
 }
 
 // afterClose: an accessor the caller owned and closed serves nothing any more (close-once wrapper).
-func (o *oracle) afterClose(acc eds.AccessorStreamer, opt readOpts) {
+func (o *oracle) afterClose(acc eds.AccessorStreamer, opt readOpts, sizeCached bool) {
 	b := o.blk
 	served := func(op string, err error) {
 		o.c.count("closed_probes", 1)
@@ -700,8 +700,15 @@ func (o *oracle) afterClose(acc eds.AccessorStreamer, opt readOpts) {
 		served("Shares", err)
 		_, err = acc.Reader()
 		served("Reader", err)
-		_, err = acc.Size(o.ctx)
-		served("Size", err)
+		// the validation wrapper answers Size() from its own copy once it has looked the size up
+		sz, err := acc.Size(o.ctx)
+		o.c.count("closed_probes", 1)
+		if err == nil && sz != b.W {
+			o.violate(fmt.Sprintf("Size through a closed accessor = %d, stored square has width %d", sz, b.W), "closed", "misserved", opt.tag)
+		}
+		if (err == nil) != sizeCached {
+			o.c.drift("Size via %s after Close: served=%v; the model says served=%v (size remembered by the validation wrapper)", opt.path, err == nil, sizeCached)
+		}
 		_, err = acc.AxisRoots(o.ctx)
 		served("AxisRoots", err)
 		_, err = acc.RangeNamespaceData(o.ctx, 0, 1)
